@@ -85,6 +85,19 @@ CLAIMS.update({
             'TLA+ heap model + TLC, one implementation test per reachable state, simulated histories replayed', 'DESIGN.md section 5 C17', 'objects'),
 })
 
+CLAIMS.update({
+    'C13': ('model_checking',
+            'Purity.tla states that library operations leave object versions and module state unchanged and return a function of the '
+            'argument value (history hidden by a VIEW); TLC-simulated call histories (<= 30 calls over a pool of regions of all classes, '
+            'lists, coordinates, an image; contains/masks/area/boxes/conversion/rotation/copy/combine/artist/serialise/write/parse in all '
+            'three formats) are replayed with deep fingerprints of every input and of all module tables before/after each call, each call '
+            'repeated, results compared across the history and with a fresh interpreter under another hash seed; independent random '
+            'histories are validated by Trace_Purity.tla.',
+            'Trusts the fingerprint function (parameters bit-for-bit, meta/visual, arrays, WCS header, module-level containers of regions.*). '
+            'State outside the pool and the module tables is not observed.',
+            'TLA+ spec + TLC, simulated behaviours replayed with input/module-state fingerprints, trace validation', 'DESIGN.md section 5 C13', 'purity'),
+})
+
 PENDING_REASON = ('specification module for this property is designed in DESIGN.md but its TLA+ module and '
                   'conformance binding are not built yet; not claimed until they are')
 
@@ -146,6 +159,8 @@ ENGINES.append({'name': 'geometry', 'path': 'specs/Geometry.tla specs/MC_Geometr
                 'kind_free_text': 'exact integer lattice model of pixel-region geometry; TLC exhaustive on families, replay, trace validation'})
 ENGINES.append({'name': 'objects', 'path': 'specs/Objects.tla specs/MC_Objects.tla specs/Lists.tla vf/objs.py vf/engines/c16.py c17.py lists.py',
                 'serves_properties': ['C16', 'C17'], 'kind_free_text': 'heap model with identity; every state an implementation test'})
+ENGINES.append({'name': 'purity', 'path': 'specs/Purity.tla specs/Trace_Purity.tla vf/purity.py vf/engines/c13.py',
+                'serves_properties': ['C13'], 'kind_free_text': 'call histories from TLC -simulate replayed with deep fingerprints; fresh-interpreter comparison'})
 NA = {}
 
 
